@@ -131,3 +131,25 @@ CONTRACTS += [
     Contract('c03.base_parse.env', NP + 'parse', ['C03'], returns=_BPR, params=dict(self=Opaque(), source=Opaque()), ensures=[],
              assumed='at the call site in BasePercentageParser.parse the number parser resolves the embedded number to number_res'),
 ]
+
+
+def _cjk_parser():
+    return Rec(NUM + 'number/cjk_parsers.py::CJKNumberParser',
+               dict(config=Config(values=dict(decimal_separator_char=Const('.'), non_decimal_separator_char=Const(','),
+                                              is_multi_decimal_separator_culture=Const(False), full_to_half_map=Const({}))),
+                    is_non_standard_separator_variant=Const(False), supported_types=Const([])))
+
+
+CONTRACTS += [
+    Contract(f'c03.cjk.get_digit_value.{"negative" if neg else "positive"}.{nfrac}', NUM + 'number/cjk_parsers.py::CJKNumberParser.get_digit_value',
+             ['C03'], unroll=24, decorators=['precision'],
+             params=dict(dict(g00=Int(0, 9), g01=Int(0, 9), **{f'f{d}': Int(0, 9) for d in range(nfrac)}),
+                         self=_cjk_parser(), power=Const(1),
+                         source=Expr(f'literal_text([[g00, g01]], ",", [{", ".join(f"f{d}" for d in range(nfrac))}], ".", {neg})')),
+             regex_env={'negative_number_sign_regex': 'match' if neg else 'none'},
+             ensures=[('value-is-the-number-written-with-its-sign',
+                       f'result == literal_value([[g00, g01]], [{", ".join(f"f{d}" for d in range(nfrac))}], {neg})')],
+             note='two integer digits' + (f' and {nfrac} fraction digit(s)' if nfrac else '') + ', sign term of one character matched by the '
+                  'sign regex (environment value); full-width map empty (digits already half-width)')
+    for neg in (False, True) for nfrac in (0, 1)
+]
